@@ -474,6 +474,33 @@ def gen_units(world):
     for n in (0, 2):
         for tg in (True, False):
             out.append(mk_gen(n, tg, tg))
+
+    def mk_gen_defaults():
+        """ctparse_gen(txt) with every option omitted: the documented defaults reach the search"""
+        def setup(it, w):
+            return [{"txt": UTerm("input", ["txt"], "str")}, {}]
+
+        def call(it, w, a):
+            P, seen = a
+            it.contracts = dict(it.contracts)
+
+            def c_ctparse(it2, f2, args, kwargs):
+                seen["bound"] = it2.bind_args(f2, args, kwargs)
+                return []
+            it.contracts["ctparse._ctparse"] = c_ctparse
+            it.contracts["ctparse._preprocess_string"] = lambda it2, f2, args, k: UTerm("preprocess", [args[0]], "str")
+            return it.call(w.func("ctparse.ctparse_gen"), [P["txt"]], {})
+
+        def ens(it, w, a, r):
+            b = a[1].get("bound") or {}
+            doc = {"timeout": 1.0, "relative_match_len": 1.0, "max_stack_depth": 10}
+            sc = b.get("scorer")
+            return [("documented-defaults-reach-the-search", ["C14", "C13"],
+                     all(type(b.get(k)) == type(v) and b.get(k) == v for k, v in doc.items())
+                     and isinstance(sc, Tok) and sc.name.endswith("_DEFAULT_SCORER"))]
+        return FuncUnit("ctparse.ctparse_gen[defaults]", ["ctparse.ctparse_gen"], ["C13", "C14"], setup, call, ens,
+                        prop_map={"safety": ["C01"], "frame": ["C12"]})
+    out.append(mk_gen_defaults())
     return out
 
 
